@@ -13,7 +13,8 @@ RULE = ("A grammar of prior specifications: valid ones (poly_trend 1-4, 0-3 offs
         "list), non-iterable. Oracle: a corrupted specification must raise (any exception type) - priors at construction, data at "
         "the first sampler call; a valid one must be accepted, list its parameters as nonlinear, linear, offsets and "
         "yield finite likelihoods. Every corrupted case is non-trivial (each exercises one validation branch); the "
-        "class histogram shows the (fault kind x parameter) cells covered.")
+        "class histogram shows the (fault kind x parameter) cells covered."
+        " Also: dict labels that are prefixes of each other / numeric strings / case variants; search 'default_factory': arguments of JokerPrior.default of the wrong physical type or count must be refused.")
 SHARDS = {"quick": 4, "thorough": 16}
 BUDGET = {"quick": 70, "thorough": 600}
 
